@@ -120,7 +120,10 @@ def cases(draw):
         restart = {'dup': draw(st.integers(0, 7)), 'gap_ms': draw(st.sampled_from([600000, 3600000])), 'same_len': draw(st.booleans()),
                    'order': draw(st.lists(st.integers(0, 9), max_size=6)), 'dup_last': draw(st.booleans())}
         sends[0] = {'plen': min(max(sends[0]['plen'], 2 * mtu + 10), 3000), 'seed': sends[0]['seed'], 'peer': 1}
-    return {'mtu': mtu, 'sends': sends, 'ops': ops, 'queries': queries, 'poll': poll, 'restart': restart}
+    # one transfer whose segments arrive 40 s apart (less than the receiver's one-minute wait for the next segment,
+    # the whole transfer takes minutes)
+    gap_ms = draw(st.sampled_from([0, 0, 0, 40000])) if len(sends) == 1 else 0
+    return {'mtu': mtu, 'sends': sends, 'ops': ops, 'queries': queries, 'poll': poll, 'restart': restart, 'gap_ms': gap_ms}
 
 
 # --- execution ------------------------------------------------------------------------------
@@ -283,6 +286,16 @@ def execute(case, out):
                      'the receiver announced %d (mtu %s)' % (src, len(payload), want, after - before, mtu))
 
     idx = 0
+    gap_ms = int(case.get('gap_ms') or 0) if len(case['sends']) == 1 else 0
+    if gap_ms:
+        out.label('slow-arrival')
+        real_feed = feed
+
+        def feed(payload, src, count_model=True):       # noqa: F811  (time passes before every segment that arrives)
+            if parse_segment(bytes(payload))[0] == 'segment':
+                simloop.advance_to(simloop.CLOCK.now_ms + gap_ms)
+                recv.settle()
+            return real_feed(payload, src, count_model)
     for op in case['ops']:
         kind, a, b = op
         if kind == 'r' and delivered:
